@@ -70,6 +70,23 @@ def py_transition(epoch, now, period, genesis):
     return genesis + (r - 1) * period
 
 
+def synchronous(res):
+    """kyber's DKG is a synchronous protocol: a run says something about agreement only if every bundle reached every
+    node within the phase. True when the run met that assumption: no node was starved / no delivery was late by a quarter
+    of a phase, and (unless a node was taken off line on purpose, which makes the phase timers drive the run) every node
+    that completed did so before the first phase timer could fire."""
+    ph = res.get("phase_ms") or 0
+    if not ph or not res.get("kickoff_ms"):
+        return True
+    if max(res.get("max_delivery_lag_ms", 0), res.get("max_sched_lag_ms", 0)) > ph / 4:
+        return False
+    if not res.get("down"):
+        his = [n["done_hi_ms"] for n in res.get("nodes", {}).values() if n.get("completed")]
+        if his and max(his) >= res["kickoff_ms"] + ph - 100:
+            return False
+    return True
+
+
 def completed(res):
     """{node: fin state} of the nodes that completed the epoch of this result"""
     out = {}
@@ -418,7 +435,7 @@ def model_ops_handover(h):
             if not p or p.get("outcome") == "sign-error":
                 continue
             valid = p["valid_old"] if o["live"] == "old" else p["valid_new"]
-            ops.append(f"admit {h['self_addr']} {p['next_round']} {p['last_stored']} {p['round']} {p['index']} {1 if valid else 0} {o['share_index']} {o['live_nodes']}")
+            ops.append(f"admission {h['self_addr']} {p['next_round']} {p['last_stored']} {p['round']} {p['index']} {1 if valid else 0} {o['share_index']} {o['live_nodes']}")
             exp.append(p["outcome"])
     return ops, exp
 
